@@ -1500,6 +1500,11 @@ def build(unit_path, prelude_paths, canary=False):
                 if ("item", part["name"]) in seen:
                     continue
                 seen.add(("item", part["name"]))
+            if kind == "fn" and stub and part.name.rpartition("::")[2].split("#")[0] in [n for l in drop_stubs for n in l]:
+                # R93 (extension, unit sel3): a `#! fn` of the imported unit (or of a unit it imports) that is listed in `without=`
+                # is not turned into a stub either -- the importing unit lists the real function with `#! fn` and proves it again
+                stats["R93"] = stats.get("R93", 0) + 1
+                continue
             if kind == "fn":
                 if ("fn", part.file, part.name) in seen:
                     if stub:
@@ -1519,7 +1524,9 @@ def build(unit_path, prelude_paths, canary=False):
                 drop_stubs.pop()
                 emit("// ---- end of unit %s ----\n" % part["unit"], {"origin": "gen"})
             elif kind == "raw":
-                emit((rule_R93(part.get("text", ""), drop_stubs[-1], stats) if stub and drop_stubs and drop_stubs[-1] else part.get("text", "")) + "\n", {"origin": "unit-raw", "file": unit_path, "line": part["line"]})
+                # R93: the `without=` lists of ALL enclosing `#! use` imports apply (a nested import inherits the list of its importer)
+                dropped = [n for l in drop_stubs for n in l]
+                emit((rule_R93(part.get("text", ""), dropped, stats) if stub and dropped else part.get("text", "")) + "\n", {"origin": "unit-raw", "file": unit_path, "line": part["line"]})
             elif kind == "consts":
                 src, items = items_of(part["file"])
                 names = part["names"]
